@@ -224,12 +224,13 @@ StepQuiesce(e) ==
          writerParked == \E y \in Range(e.parked) : y[1] \in {"dispatch", "beforeDispatch"}
          check == {s \in DOMAIN ss : /\ ss[s].pc = "live" /\ ss[s].health = "ok" /\ ~ss[s].repl
                                      /\ s \notin parkedSend /\ ~g.wedged /\ ~e.diverged /\ ~writerParked}
-         bad(s) == \/ ss[s].lost # {}
+         bad(s) == \/ ss[s].orphan
                    \/ ~ss[s].orphan /\ ( \/ ~SS!Complete(ss[s].sent, ss[s].from, g.head)
                                          \/ ~(ss[s].dispAfter \subseteq Range(ss[s].sent)) )
          missing(s) == IF Len(ss[s].sent) = 0 /\ ss[s].from = 0 THEN ss[s].dispAfter
                        ELSE SS!Missing(ss[s].sent, ss[s].from, g.head)
          shape(s) == IF ss[s].orphan THEN "callback-removed-by-predecessor"
+                     ELSE IF g.backend = "mem" /\ ss[s].evict THEN "memdb-eviction-shifts-cursor"
                      ELSE IF missing(s) # {} /\ missing(s) \subseteq ss[s].skipped THEN "put-between-scan-and-register"
                      ELSE "other"
          A1 == {Alarm("LiveComplete", [ev |-> "Quiesce"], shape(s), "stream is open and healthy but has not received every stored round")
